@@ -52,8 +52,49 @@ def one(ctx, cfg, ad, read):
                       M.case_dict(cfg, read), facts=dict(type=cfg["type"], indels=cfg["indels"]), klass=cfg["type"])
 
 
+def long_no_indels_probe(ctx, k):
+    """Adapters of tens of thousands of bases with indels disabled (the cost of a disabled indel times the adapter length
+    leaves the 32-bit range beyond 21474 nt): interval lengths agree and the error count is the Hamming distance."""
+    import cutadapt.adapters as A
+
+    rng = ctx.rng("c01long", k)
+    typ = ("back", "front")[k % 2]
+    m = (22000, 30000, 21480, 25000)[(k // 2) % 4]
+    a = "".join(rng.choice("ACGT") for _ in range(m))
+    copy = list(a)
+    for p in rng.sample(range(m), m // 80):
+        copy[p] = rng.choice([c for c in "ACGT" if c != copy[p]])
+    left = "".join(rng.choice("ACGT") for _ in range(rng.randint(0, 6)))
+    right = "".join(rng.choice("ACGT") for _ in range(rng.randint(0, 6)))
+    shifted = (k // 8) % 2 == 1
+    if shifted:
+        # one base missing in the middle: no admissible occurrence without indels, anything reported must still be genuine
+        del copy[m // 2 + rng.randint(-500, 500)]
+    read = left + "".join(copy) + right
+    cls = A.BackAdapter if typ == "back" else A.FrontAdapter
+    ad = cls(a, max_errors=0.1, indels=False, min_overlap=m // 2)
+    mt = ad.match_to(read)
+    case = dict(kind="long", k=k)
+    ctx.case(("long", typ, m, k))
+    ctx.count("adapters_longer_than_21474_without_indels")
+    if mt is None and shifted:
+        return
+    if mt is None:
+        ctx.violation("long-missed", f"{typ} adapter of {m} nt, --no-indels: a copy with {m // 80} substitutions was not found", case, klass="long")
+        return
+    la, lr = mt.astop - mt.astart, mt.rstop - mt.rstart
+    ok_bounds = 0 <= mt.astart <= mt.astop <= m and 0 <= mt.rstart <= mt.rstop <= len(read)
+    d = sum(1 for x, y in zip(a[mt.astart:mt.astop], read[mt.rstart:mt.rstop]) if x != y) if ok_bounds and la == lr else None
+    if not ok_bounds or la != lr or mt.errors != d or mt.errors > 0.1 * la:
+        ctx.violation("no-indels-length" if la != lr else "error-count",
+                      f"{typ} adapter of {m} nt, --no-indels: adapter interval [{mt.astart},{mt.astop}), read interval [{mt.rstart},{mt.rstop}), "
+                      f"reported errors {mt.errors}, Hamming distance of the intervals {d}", case, klass="long")
+
+
 def run_shard(ctx):
     asan = ctx.variant == "asan"
+    if not asan and (ctx.tier == "thorough" or ctx.shard < 4 or ctx.shard in (8, 10)):
+        long_no_indels_probe(ctx, ctx.shard)
     n_cfg = ctx.scale(4000, 80000) if not asan else ctx.scale(300, 6000)
     rng = ctx.rng("c01")
     for i in range(n_cfg):
@@ -226,6 +267,9 @@ def cli_case(ctx, k):
 
 
 def replay(ctx, case):
+    if case.get("kind") == "long":
+        long_no_indels_probe(ctx, case["k"])
+        return
     if case.get("cli"):
         ctx.shard = case["cli_k"] // 100000
         cli_case(ctx, case["cli_k"])
